@@ -241,3 +241,106 @@ def r6(ctx, R):
         ok = all(fresh) and first_fresh
         detail = [ast.unparse(s) for s in defs] + inplace
     R.check(ok, 'Controller.return_stats :: the merged statistics are a new dict, never the dict of one of the hooks', w, 'stats = {}; stats = {**stats, **hook.return_stats()}', detail)
+
+
+@rule('C19', 'C19.R7', 'a description can be reused: per-level parameter dictionaries are NEW dictionaries (constructors write their defaults into them), never the dictionaries owned by the caller', floor=5)
+def r7(ctx, R):
+    from ..purity import Purity
+    repo = ctx.repo
+    rel = 'pySDC/core/step.py'
+    fn = repo.func(rel, 'Step.__dict_to_list')
+    w = f'{rel}:Step.__dict_to_list'
+    R.fn(w)
+    P = Purity(fn)
+    if not P.returns:
+        raise AnalysisError(f'{w}: no return found')
+    al = [ast.unparse(s) for s, tags in P.returns if any(t[0] == 'param' for t in tags)]
+    R.check(not al, 'Step.__dict_to_list :: every returned dictionary is newly built (values copied key by key), on every path', w, 'no return value aliases or contains in_dict', al)
+    hits = [h.target for h in P.hits if h.params()]
+    R.check(not hits, 'Step.__dict_to_list :: the incoming dictionary is not modified', w, 'no store into in_dict', hits)
+    gh = repo.func(rel, 'Step.__generate_hierarchy')
+    w2 = f'{rel}:Step.__generate_hierarchy'
+    R.fn(w2)
+    src = {ast.unparse(s.targets[0]): ast.unparse(s.value) for s in walk_no_nested(gh) if isinstance(s, ast.Assign) and len(s.targets) == 1}
+    for key, var in (('problem_params', 'pparams_list'), ('level_params', 'lparams_list'), ('sweeper_params', 'swparams_list')):
+        ok = re.fullmatch(rf"self\.(_Step)?__dict_to_list\(descr\['{key}'\]\)", src.get(var, '')) and src.get(f"descr_new['{key}']") == var
+        R.check(bool(ok), f"Step.__generate_hierarchy :: {key} handed to the levels are the per-level copies", w2, f"{var} = self.__dict_to_list(descr['{key}']); descr_new['{key}'] = {var}", {var: src.get(var), f"descr_new['{key}']": src.get(f"descr_new['{key}']")})
+    lv = [c for c in ast.walk(gh) if isinstance(c, ast.Call) and ast.unparse(c.func) == 'Level']
+    if len(lv) != 1:
+        raise AnalysisError(f'{w2}: expected one Level(...) construction')
+    kw = {k.arg: ast.unparse(k.value) for k in lv[0].keywords}
+    want = {k: f"descr_list[l]['{k}']" for k in ('problem_params', 'sweeper_params', 'level_params')}
+    R.check({k: kw.get(k) for k in want} == want and src.get('descr_list', '').endswith('__dict_to_list(descr_new)') and src.get('descr_new') == 'descr.copy()', 'Step.__generate_hierarchy :: Level receives the entries of descr_list (built from the copy descr_new), not of the caller\'s description', w2, want, {k: kw.get(k) for k in want})
+
+
+def _ev(node, env):
+    """integer evaluation of the small index expressions of prepare_next_block over a finite environment"""
+    if isinstance(node, ast.Constant) and isinstance(node.value, int):
+        return node.value
+    if isinstance(node, ast.BinOp) and isinstance(node.op, (ast.Add, ast.Sub)):
+        a, b = _ev(node.left, env), _ev(node.right, env)
+        return a + b if isinstance(node.op, ast.Add) else a - b
+    if isinstance(node, ast.UnaryOp) and isinstance(node.op, ast.USub):
+        return -_ev(node.operand, env)
+    u = ast.unparse(node)
+    if u in env:
+        return env[u]
+    raise AnalysisError(f'prepare_next_block: index expression {u!r} is outside the affine vocabulary (slot, restart_from, size)')
+
+
+@rule('C19', 'C19.R8', 'restart counters do not leak into later blocks/runs: after the per-step loop of prepare_next_block EVERY slot of the next block has been assigned a counter (finite case analysis over size <= 6, restart point, slot on the extracted index expressions)', floor=1)
+def r8(ctx, R):
+    repo = ctx.repo
+    rel = 'pySDC/implementations/convergence_controller_classes/basic_restarting.py'
+    fn = repo.func(rel, 'BasicRestartingNonMPI.prepare_next_block')
+    w = f'{rel}:BasicRestartingNonMPI.prepare_next_block'
+    R.fn(w)
+    rf = [s for s in walk_no_nested(fn) if isinstance(s, ast.Assign) and ast.unparse(s.targets[0]) == 'restart_from']
+    if len(rf) != 1 or ast.unparse(rf[0].value) != 'min([me.status.slot for me in MS if me.status.restart] + [size - 1])':
+        raise AnalysisError(f'{w}: definition of restart_from changed - re-confirm the range 0..size-1 assumed by C19.R8')
+    branch = [s for s in fn.body if isinstance(s, ast.If) and 'restart_from' in ast.unparse(s.test)]
+    if len(branch) != 1 or not isinstance(branch[0].test, ast.Compare) or len(branch[0].test.ops) != 1:
+        raise AnalysisError(f'{w}: expected one if/else on the restart point')
+    br = branch[0]
+
+    def targets(body):
+        """index expressions (ast) of the steps whose restarts_in_a_row is assigned in this arm; 'S' means the step itself"""
+        alias = {}
+        out = []
+        for s in body:
+            for x in ast.walk(s):
+                if isinstance(x, ast.Assign) and isinstance(x.targets[0], ast.Name) and isinstance(x.value, ast.Subscript) and ast.unparse(x.value.value) == 'MS':
+                    alias[x.targets[0].id] = x.value.slice
+                if isinstance(x, ast.Assign) and ast.unparse(x.targets[0]).endswith('.status.restarts_in_a_row'):
+                    base = x.targets[0].value.value
+                    if isinstance(base, ast.Subscript) and ast.unparse(base.value) == 'MS':
+                        out.append(base.slice)
+                    elif isinstance(base, ast.Name) and base.id in alias:
+                        out.append(alias[base.id])
+                    elif isinstance(base, ast.Name) and base.id == 'S':
+                        out.append(ast.parse('S.status.slot', mode='eval').body)
+                    else:
+                        raise AnalysisError(f'{w}: cannot resolve the step written by `{ast.unparse(x)}`')
+        return out
+
+    arms = (targets(br.body), targets(br.orelse))
+    ops = {ast.Lt: lambda a, b: a < b, ast.LtE: lambda a, b: a <= b, ast.Gt: lambda a, b: a > b, ast.GtE: lambda a, b: a >= b}
+    op = ops.get(type(br.test.ops[0]))
+    if op is None:
+        raise AnalysisError(f'{w}: unexpected comparison in the branch on the restart point')
+    uncovered = []
+    for size in range(1, 7):
+        for r in range(size):
+            got = set()
+            for slot in range(size):
+                env = {'S.status.slot': slot, 'restart_from': r, 'size': size}
+                arm = arms[0] if op(_ev(br.test.left, env), _ev(br.test.comparators[0], env)) else arms[1]
+                for t in arm:
+                    i = _ev(t, env)
+                    if -size <= i < size:
+                        got.add(i % size)
+            miss = sorted(set(range(size)) - got)
+            if miss:
+                uncovered.append((size, r, miss))
+    summary = '; '.join(f'size={s} restart_from={r}: slot(s) {m} keep the old counter' for s, r, m in uncovered[:4]) + (f' (+{len(uncovered) - 4} more cases)' if len(uncovered) > 4 else '')
+    R.check(not uncovered, 'BasicRestartingNonMPI.prepare_next_block :: every slot of the next block is assigned a restart counter' + (f' [{summary}]' if uncovered else ''), w, 'for every block size and restart point the assigned positions cover 0..size-1', f'{len(uncovered)} uncovered case(s) of {sum(range(1, 7))}: ' + summary)
